@@ -3,9 +3,9 @@ from pw_verif.props._machine import run_program_case, worker_init  # noqa: F401
 
 PROP = "C07"
 LEVEL = "exploration"
-BUDGET = {"quick": 480, "thorough": 6000}
+BUDGET = {"quick": 800, "thorough": 8000}
 MIN_PER_SHARD = 10
-ALL_KINDS = ["op", "op", "comp", "comp", "struct", "struct", "kraus", "measure", "measure", "povm", "resize", "trace_out", "bigop", "set_contraction"]
+ALL_KINDS = ["op", "op", "comp", "struct", "kraus", "kraus", "measure", "measure", "measure", "povm", "povm", "resize", "trace_out", "bigop", "set_contraction"]
 
 
 def strategy(tier):
